@@ -91,6 +91,8 @@ def _family_of_template(t):
 def run(P, R, tier):
     F = P.func(MOD, ROOT)
     from rules import common as _common
+    from rules import C19 as _C19
+    _C19.gate_sides(P, R, 'C10.b')
     _common.forward(P, R, 'C12', ['C12.c', 'C12.h'], 'C10.e', 'the returned frame (and any re-read) loads the parts in numeric order: part.10 after part.2', floor=1)
     _common.forward(P, R, 'C11', ['C11.d', 'C11.e'], 'C10.e', 'the returned frame is read back through read_parquet_dask', floor=1)
     helpers = {name: (g, _helper_kind(P, g)) for name, g in F.nested.items()}
@@ -362,6 +364,24 @@ def run(P, R, tier):
                     'so a file just written as a target is deleted and its rows are lost', construct='bulk renumbering removes targets')
         if not bulk:
             R.floor('C10.c', 'compaction move sites', len(mv), 1)
+    # after the renumbering the part files carry their FINAL names: the names they were written under (the sources of the moves) are stale.  Reading
+    # "the first written part" through such a name fails (or reads another run's file) exactly when part 0 stayed empty and the first file was renamed
+    for c in mv:
+        lp_ = _enclosing(c, ast.For) or _enclosing(c, ast.ListComp)
+        it_ = lp_.iter if isinstance(lp_, ast.For) else (lp_.generators[0].iter if lp_ is not None and lp_.generators else None)
+        if not (isinstance(it_, ast.Call) and norm(it_.func) == 'zip' and it_.args and isinstance(it_.args[0], ast.Name)):
+            continue
+        srcname = it_.args[0].id
+        top = c
+        while getattr(top, '_parent', None) is not None and top._parent is not F.node:
+            top = top._parent
+        if top not in F.node.body:
+            continue
+        later = F.node.body[F.node.body.index(top) + 1:]
+        stale = [x for st_ in later for x in ast.walk(st_) if isinstance(x, ast.Name) and x.id == srcname and isinstance(x.ctx, ast.Load)]
+        R.check(not stale, 'C10.c', F, stale[0] if stale else c, f'after the renumbering no file is addressed through its old name (`{srcname}`)',
+                f'`{srcname}` (the names the parts were written under, before the renumbering) is used after the files were moved to their final names'
+                + (f' (line {stale[0].lineno})' if stale else '') + ': when an early partition stayed empty the first entry no longer exists', construct=f'stale part names after renumbering')
     for c in mv:
         loop = _enclosing(c, ast.For)
         comp = None
